@@ -60,6 +60,7 @@ def radius_modes(labels):
         ('dict-equal', {lab: 0.7 for lab in uniq}),
         ('dict-different', diff),
         ('auto', None),
+        ('float-overlap', 2.2),  # user radius larger than half the site separation: spheres overlap
     ]
 
 
@@ -75,6 +76,8 @@ def scenarios(tier, seed):
             for f in FRACTIONS:
                 for layout in (0, 1):
                     if mode == 'auto' and (f != 1.0):
+                        continue
+                    if mode == 'float-overlap' and (f != 0.5 or layout == 1 or sname != 'S3'):
                         continue
                     # skip = a site that no probe visits (label groups with never-visited members)
                     skips = [-1] if (mode in ('float', 'auto') or layout == 1) else [-1, 0, 1]
@@ -98,6 +101,16 @@ def build_cloud(sc):
     mode = sc['mode']
     spec = dict(radius_modes(labels))[mode]
     f = sc['f']
+    if mode == 'float-overlap':
+        radii = [spec] * len(labels)
+        Minv = np.linalg.inv(M)
+        site_cart = site_frac @ M
+        pts = []
+        for s in range(len(labels)):
+            for u in direction_table(M, sc['tier']):
+                for rho in (0.0, 0.2, 0.45, 0.7, 0.95, 1.2):
+                    pts.append((site_cart[s] + rho * spec * u) @ Minv)
+        return M, site_frac, labels, spec, radii, np.array(pts)
     if mode == 'auto':
         radii = [0.7] * len(labels)  # nominal, used only to place probes
     elif isinstance(spec, dict):
@@ -177,6 +190,17 @@ def eval_scenario(sc, res: Result | None = None):
     except Exception:  # noqa: BLE001  (occupancy > 1 etc. are not this property's business)
         if not np.array_equal(np.asarray(tr.states), states):
             viols.append(('states-modified-by-a-derived-view', ''))
+    # the event table delivered with the states must be exactly their change-log (whatever the geometry)
+    from .. import impl as _impl
+    from ..ref import hop as _hop
+
+    try:
+        ev_rows = sorted(_impl.event_rows(tr.events))
+        own_rows = sorted(_hop.change_log_arrays(states.tolist(), inner.tolist()))
+        if ev_rows != own_rows:
+            viols.append(('events-not-the-change-log-of-the-delivered-states', f'{len(ev_rows)} rows vs {len(own_rows)} changes in the stored states'))
+    except Exception as e:  # noqa: BLE001
+        viols.append((f'events-consistency-raise-{type(e).__name__}', str(e)))
     # the caller's radius argument is reused for a second call: it must be unchanged and give the same answer
     import copy
 
@@ -209,6 +233,22 @@ def eval_scenario(sc, res: Result | None = None):
                 break
         return viols, (sc['lat'], sc['sites'], tuple(labels), 'auto', states.tobytes()), sharp, tie
     R = np.array(radii)
+    if sc['mode'] == 'float-overlap':
+        # overlapping spheres: any site within the radius is acceptable; 'none' only if no site is within it
+        for name, arr, scale in (('state', states, 1.0), ('inner-state', inner, f)):
+            for k in range(len(pts)):
+                t, a = index(k)
+                margin = D[k] - R * scale
+                if np.any(np.abs(margin) < TIE):
+                    tie += 1
+                    continue
+                sharp += 1
+                Eset = [s for s in range(len(R)) if margin[s] < 0]
+                got = int(arr[t, a])
+                if (Eset and got not in Eset) or (not Eset and got != -1):
+                    viols.append((f'{name}-wrong', f'overlapping spheres: probe {k} got {got}, sites within radius*{scale}: {Eset}'))
+                    break
+        return viols, (sc['lat'], 'overlap', states.tobytes(), inner.tobytes()), sharp, tie
     for name, arr, scale in (('state', states, 1.0), ('inner-state', inner, f)):
         bad = []
         for k in range(len(pts)):
